@@ -2,6 +2,50 @@
 use vstd::std_specs::iter::IteratorSpec as _;
 verus! {
 
+//@@ item src/types.rs :: ^pub enum DiffOp rw=R7
+#[derive(PartialEq, Eq, Clone, Copy)]
+pub enum DiffOp {
+    /// A segment is equal (see [`DiffHook::equal`])
+    Equal {
+        /// The starting index in the old sequence.
+        old_index: usize,
+        /// The starting index in the new sequence.
+        new_index: usize,
+        /// The length of the segment.
+        len: usize,
+    },
+    /// A segment was deleted (see [`DiffHook::delete`])
+    Delete {
+        /// The starting index in the old sequence.
+        old_index: usize,
+        /// The length of the old segment.
+        old_len: usize,
+        /// The starting index in the new sequence.
+        new_index: usize,
+    },
+    /// A segment was inserted (see [`DiffHook::insert`])
+    Insert {
+        /// The starting index in the old sequence.
+        old_index: usize,
+        /// The starting index in the new sequence.
+        new_index: usize,
+        /// The length of the new segment.
+        new_len: usize,
+    },
+    /// A segment was replaced (see [`DiffHook::replace`])
+    Replace {
+        /// The starting index in the old sequence.
+        old_index: usize,
+        /// The length of the old segment.
+        old_len: usize,
+        /// The starting index in the new sequence.
+        new_index: usize,
+        /// The length of the new segment.
+        new_len: usize,
+    },
+}
+//@@ end
+
 // ---------------------------------------------------------------------------------------------
 // C12 vocabulary (pure ghost).  Written from the property text, not from the loop:
 //   * the splitting points of a list are its interior Equal ops longer than 2n (`is_split`);
@@ -39,7 +83,7 @@ pub open spec fn ctx_tail(op: DiffOp, k: int) -> DiffOp {
 /// some op of the list is a change (not Equal)
 pub open spec fn has_change(s: Seq<DiffOp>) -> bool { exists|i: int| 0 <= i < s.len() && !is_eq(#[trigger] s[i]) }
 
-/// Precondition actually needed (weaker than `valid_ops`, see lemma_valid_ops_group_pre): no two
+/// Precondition actually needed (weaker than `valid_ops`, see lemma_c12_valid_ops_group_pre): no two
 /// Equal ops are adjacent, an Equal op's index + len does not overflow, 2n does not overflow.
 pub open spec fn group_pre(ops: Seq<DiffOp>, n: int) -> bool {
     &&& 0 <= n && 2 * n <= usize::MAX
@@ -97,7 +141,7 @@ pub open spec fn pin_groups(r: &Vec<Vec<DiffOp>>) -> bool { true }
 pub open spec fn pin_group(g: &Vec<DiffOp>) -> bool { true }
 
 /// a group between neighbouring splitting points contains a change
-pub proof fn lemma_group_has_change(ops: Seq<DiffOp>, n: int, lo: int, hi: int)
+pub proof fn lemma_c12_group_has_change(ops: Seq<DiffOp>, n: int, lo: int, hi: int)
     requires group_pre(ops, n), -1 <= lo < hi <= ops.len(),
         lo == -1 || is_split(ops, n, lo), hi == ops.len() || is_split(ops, n, hi),
         lo == -1 && hi == ops.len() ==> has_change(ops),
@@ -123,49 +167,6 @@ pub proof fn lemma_group_has_change(ops: Seq<DiffOp>, n: int, lo: int, hi: int)
     }
 }
 
-//@@ item src/types.rs :: ^pub enum DiffOp rw=R7
-#[derive(PartialEq, Eq, Clone, Copy)]
-pub enum DiffOp {
-    /// A segment is equal (see [`DiffHook::equal`])
-    Equal {
-        /// The starting index in the old sequence.
-        old_index: usize,
-        /// The starting index in the new sequence.
-        new_index: usize,
-        /// The length of the segment.
-        len: usize,
-    },
-    /// A segment was deleted (see [`DiffHook::delete`])
-    Delete {
-        /// The starting index in the old sequence.
-        old_index: usize,
-        /// The length of the old segment.
-        old_len: usize,
-        /// The starting index in the new sequence.
-        new_index: usize,
-    },
-    /// A segment was inserted (see [`DiffHook::insert`])
-    Insert {
-        /// The starting index in the old sequence.
-        old_index: usize,
-        /// The starting index in the new sequence.
-        new_index: usize,
-        /// The length of the new segment.
-        new_len: usize,
-    },
-    /// A segment was replaced (see [`DiffHook::replace`])
-    Replace {
-        /// The starting index in the old sequence.
-        old_index: usize,
-        /// The length of the old segment.
-        old_len: usize,
-        /// The starting index in the new sequence.
-        new_index: usize,
-        /// The length of the new segment.
-        new_len: usize,
-    },
-}
-//@@ end
 
 //@@ item src/common.rs :: ^pub fn group_diff_ops rw=R5,R6,R0,R8
 pub fn group_diff_ops(mut ops: Vec<DiffOp>, n: usize) -> (res: Vec<Vec<DiffOp>>)
@@ -261,7 +262,7 @@ pub fn group_diff_ops(mut ops: Vec<DiffOp>, n: usize) -> (res: Vec<Vec<DiffOp>>)
                 /*@*/     assert(ops1[k] == ops0[k]);
                 /*@*/     let cn = c.push(k);
                 /*@*/     assert(rv@[c.len() as int]@ == group_between(ops0, ni, lo, k));
-                /*@*/     lemma_group_has_change(ops0, ni, lo, k);
+                /*@*/     lemma_c12_group_has_change(ops0, ni, lo, k);
                 /*@*/     assert(pending_group@ == group_open(ops0, ni, k, k + 1));
                 /*@*/     assert(cuts_upto(ops0, ni, cn, k + 1)) by {
                 /*@*/         assert forall|i: int| 0 <= i < k + 1 && #[trigger] is_split(ops0, ni, i) implies cn.contains(i) by {
@@ -284,7 +285,7 @@ pub fn group_diff_ops(mut ops: Vec<DiffOp>, n: usize) -> (res: Vec<Vec<DiffOp>>)
     /*@*/ proof {
     /*@*/     assert(pending_group@ == group_between(ops0, ni, lo, k));
     /*@*/     if has_change(ops0) {
-    /*@*/         lemma_group_has_change(ops0, ni, lo, k);
+    /*@*/         lemma_c12_group_has_change(ops0, ni, lo, k);
     /*@*/         let p = choose|p: int| 0 <= p < pending_group@.len() && !is_eq(#[trigger] pending_group@[p]);
     /*@*/     } else {
     /*@*/         assert(is_eq(ops0[0]));
@@ -319,5 +320,271 @@ pub fn group_diff_ops(mut ops: Vec<DiffOp>, n: usize) -> (res: Vec<Vec<DiffOp>>)
     rv
 }
 //@@ end
+
+// ---------------------------------------------------------------------------------------------
+// Corollaries of the contract (pure ghost; proved from `grouped` alone, not from the code)
+// ---------------------------------------------------------------------------------------------
+
+/// `valid_ops`: the canonical op lists of the property's quantifier: every op non-empty, Equal and
+/// non-Equal ops strictly alternate, every op starts on both sides where the previous one ended,
+/// no index + len overflows.  It implies `group_pre` (lemma_c12_valid_ops_group_pre); the contract of
+/// group_diff_ops needs only the weaker `group_pre`.
+pub open spec fn op_old_index(op: DiffOp) -> int {
+    match op {
+        DiffOp::Equal { old_index, .. } => old_index as int, DiffOp::Delete { old_index, .. } => old_index as int,
+        DiffOp::Insert { old_index, .. } => old_index as int, DiffOp::Replace { old_index, .. } => old_index as int,
+    }
+}
+pub open spec fn op_new_index(op: DiffOp) -> int {
+    match op {
+        DiffOp::Equal { new_index, .. } => new_index as int, DiffOp::Delete { new_index, .. } => new_index as int,
+        DiffOp::Insert { new_index, .. } => new_index as int, DiffOp::Replace { new_index, .. } => new_index as int,
+    }
+}
+pub open spec fn op_old_len(op: DiffOp) -> int {
+    match op {
+        DiffOp::Equal { len, .. } => len as int, DiffOp::Delete { old_len, .. } => old_len as int,
+        DiffOp::Insert { .. } => 0, DiffOp::Replace { old_len, .. } => old_len as int,
+    }
+}
+pub open spec fn op_new_len(op: DiffOp) -> int {
+    match op {
+        DiffOp::Equal { len, .. } => len as int, DiffOp::Delete { .. } => 0,
+        DiffOp::Insert { new_len, .. } => new_len as int, DiffOp::Replace { new_len, .. } => new_len as int,
+    }
+}
+pub open spec fn valid_ops(ops: Seq<DiffOp>) -> bool {
+    &&& forall|i: int| 0 <= i < ops.len() ==> op_old_len(#[trigger] ops[i]) + op_new_len(ops[i]) > 0
+            && op_old_index(ops[i]) + op_old_len(ops[i]) <= usize::MAX && op_new_index(ops[i]) + op_new_len(ops[i]) <= usize::MAX
+    &&& forall|i: int| 0 <= i && i + 1 < ops.len() ==> is_eq(#[trigger] ops[i]) != is_eq(ops[i + 1])
+    &&& forall|i: int| 0 <= i && i + 1 < ops.len() ==> op_old_index(ops[i + 1]) == op_old_index(#[trigger] ops[i]) + op_old_len(ops[i])
+            && op_new_index(ops[i + 1]) == op_new_index(ops[i]) + op_new_len(ops[i])
+}
+
+pub proof fn lemma_c12_valid_ops_group_pre(ops: Seq<DiffOp>, n: int)
+    requires valid_ops(ops), 0 <= n, 2 * n <= usize::MAX,
+    ensures group_pre(ops, n),
+{
+    assert forall|i: int| 0 <= i && i + 1 < ops.len() && #[trigger] is_eq(ops[i]) implies !is_eq(ops[i + 1]) by {}
+    assert forall|i: int| 0 <= i < ops.len() implies (#[trigger] ops[i] matches DiffOp::Equal { old_index, new_index, len }
+            ==> old_index + len <= usize::MAX && new_index + len <= usize::MAX) by {
+        assert(op_old_index(ops[i]) + op_old_len(ops[i]) <= usize::MAX);
+    }
+}
+
+/// what op i contributes to the concatenation of all groups: a splitting point its first n and its
+/// last n items (two Equal ops; for n == 0 two EMPTY Equal ops), every other op `trimmed_op`
+pub open spec fn pieces(ops: Seq<DiffOp>, n: int, i: int) -> Seq<DiffOp> {
+    if is_split(ops, n, i) { seq![ctx_head(ops[i], n), ctx_tail(ops[i], n)] } else { seq![trimmed_op(ops, n, i)] }
+}
+
+/// concatenation of the pieces of ops[0..k]
+pub open spec fn expand(ops: Seq<DiffOp>, n: int, k: int) -> Seq<DiffOp>
+    decreases k
+{
+    if k <= 0 { Seq::<DiffOp>::empty() } else { expand(ops, n, k - 1) + pieces(ops, n, k - 1) }
+}
+
+/// concatenation of all groups
+pub open spec fn concat(gs: Seq<Seq<DiffOp>>) -> Seq<DiffOp>
+    decreases gs.len()
+{
+    if gs.len() == 0 { Seq::<DiffOp>::empty() } else { concat(gs.drop_last()) + gs.last() }
+}
+
+/// the subsequence of the changes (non-Equal ops) of a list
+pub open spec fn changes_of(s: Seq<DiffOp>) -> Seq<DiffOp>
+    decreases s.len()
+{
+    if s.len() == 0 { Seq::<DiffOp>::empty() }
+    else if is_eq(s.last()) { changes_of(s.drop_last()) }
+    else { changes_of(s.drop_last()).push(s.last()) }
+}
+
+pub proof fn lemma_c12_changes_add(a: Seq<DiffOp>, b: Seq<DiffOp>)
+    ensures changes_of(a + b) == changes_of(a) + changes_of(b)
+    decreases b.len()
+{
+    if b.len() == 0 {
+        assert(a + b =~= a);
+        assert(changes_of(a) + changes_of(b) =~= changes_of(a));
+    } else {
+        lemma_c12_changes_add(a, b.drop_last());
+        assert((a + b).drop_last() =~= a + b.drop_last());
+        assert((a + b).last() == b.last());
+        assert(changes_of(a + b) =~= changes_of(a) + changes_of(b));
+    }
+}
+
+proof fn lemma_c12_no_split_between(ops: Seq<DiffOp>, n: int, c: Seq<int>, m: int, i: int)
+    requires cuts_upto(ops, n, c, ops.len() as int), 0 <= m <= c.len(), cut_at(ops, c, m - 1) < i < cut_at(ops, c, m),
+    ensures !is_split(ops, n, i),
+{
+    if is_split(ops, n, i) {
+        assert(c.contains(i));
+        let t = choose|t: int| 0 <= t < c.len() && c[t] == i;
+        if t <= m - 1 { if t < m - 1 { assert(c[t] < c[m - 1]); } }
+        else { if t > m { assert(c[m] < c[t]); } }
+    }
+}
+
+proof fn lemma_c12_expand_range(ops: Seq<DiffOp>, n: int, a: int, b: int)
+    requires 0 <= a <= b <= ops.len(), forall|i: int| a <= i < b ==> !is_split(ops, n, i),
+    ensures expand(ops, n, b) == expand(ops, n, a) + Seq::new((b - a) as nat, |t: int| trimmed_op(ops, n, a + t)),
+    decreases b - a
+{
+    if a == b {
+        assert(expand(ops, n, a) + Seq::new((b - a) as nat, |t: int| trimmed_op(ops, n, a + t)) =~= expand(ops, n, a));
+    } else {
+        lemma_c12_expand_range(ops, n, a, b - 1);
+        assert(!is_split(ops, n, b - 1));
+        assert(expand(ops, n, b) == expand(ops, n, b - 1) + pieces(ops, n, b - 1));
+        assert(expand(ops, n, b) =~= expand(ops, n, a) + Seq::new((b - a) as nat, |t: int| trimmed_op(ops, n, a + t)));
+    }
+}
+
+/// the first m groups, plus the second half of splitting point m-1, are the pieces of ops[0..=c[m-1]]
+proof fn lemma_c12_concat_prefix(ops: Seq<DiffOp>, n: int, gs: Seq<Seq<DiffOp>>, c: Seq<int>, m: int)
+    requires grouped(ops, n, gs, c), 0 <= m <= c.len(),
+    ensures concat(gs.take(m)) + (if m > 0 { seq![ctx_tail(ops[c[m - 1]], n)] } else { Seq::<DiffOp>::empty() })
+        == expand(ops, n, cut_at(ops, c, m - 1) + 1),
+    decreases m
+{
+    if m == 0 {
+        assert(gs.take(0) =~= Seq::<Seq<DiffOp>>::empty());
+        assert(concat(gs.take(0)) + Seq::<DiffOp>::empty() =~= Seq::<DiffOp>::empty());
+    } else {
+        lemma_c12_concat_prefix(ops, n, gs, c, m - 1);
+        let lo = cut_at(ops, c, m - 2);
+        let hi = c[m - 1];
+        assert(is_split(ops, n, hi));
+        if m >= 2 { assert(c[m - 2] < c[m - 1]); assert(is_split(ops, n, lo)); }
+        assert(gs.take(m).drop_last() =~= gs.take(m - 1));
+        assert(gs.take(m).last() == gs[m - 1]);
+        assert(gs[m - 1] == group_between(ops, n, lo, hi));
+        assert forall|i: int| lo + 1 <= i < hi implies !is_split(ops, n, i) by { lemma_c12_no_split_between(ops, n, c, m - 1, i); }
+        lemma_c12_expand_range(ops, n, lo + 1, hi);
+        assert(expand(ops, n, hi + 1) == expand(ops, n, hi) + pieces(ops, n, hi));
+        let tl = if m - 1 > 0 { seq![ctx_tail(ops[c[m - 2]], n)] } else { Seq::<DiffOp>::empty() };
+        let mid = Seq::new((hi - lo - 1) as nat, |t: int| trimmed_op(ops, n, lo + 1 + t));
+        assert(gs[m - 1] =~= tl + mid + seq![ctx_head(ops[hi], n)]);
+        assert(concat(gs.take(m)) + seq![ctx_tail(ops[hi], n)]
+            =~= (concat(gs.take(m - 1)) + tl) + mid + seq![ctx_head(ops[hi], n), ctx_tail(ops[hi], n)]);
+    }
+}
+
+/// (a) the concatenation of all groups is the op list with exactly these edits: leading Equal trimmed to
+/// its last min(n, len) items, trailing Equal to its first min(n, len) items, every interior Equal
+/// longer than 2n replaced by its first n and its last n items
+pub proof fn lemma_c12_concat(ops: Seq<DiffOp>, n: int, gs: Seq<Seq<DiffOp>>, c: Seq<int>)
+    requires grouped(ops, n, gs, c),
+    ensures concat(gs) == expand(ops, n, ops.len() as int),
+{
+    let m = c.len() as int;
+    lemma_c12_concat_prefix(ops, n, gs, c, m);
+    let lo = cut_at(ops, c, m - 1);
+    let hi = ops.len() as int;
+    assert(gs.drop_last() =~= gs.take(m));
+    assert(gs.last() == group_between(ops, n, lo, hi));
+    if m > 0 { assert(is_split(ops, n, c[m - 1])); }
+    assert forall|i: int| lo + 1 <= i < hi implies !is_split(ops, n, i) by { lemma_c12_no_split_between(ops, n, c, m, i); }
+    lemma_c12_expand_range(ops, n, lo + 1, hi);
+    let tl = if m > 0 { seq![ctx_tail(ops[c[m - 1]], n)] } else { Seq::<DiffOp>::empty() };
+    let mid = Seq::new((hi - lo - 1) as nat, |t: int| trimmed_op(ops, n, lo + 1 + t));
+    assert(gs.last() =~= tl + mid);
+    assert(concat(gs) =~= (concat(gs.take(m)) + tl) + mid);
+}
+
+proof fn lemma_c12_changes_expand(ops: Seq<DiffOp>, n: int, k: int)
+    requires 0 <= k <= ops.len(),
+    ensures changes_of(expand(ops, n, k)) == changes_of(ops.take(k)),
+    decreases k
+{
+    if k == 0 {
+        assert(ops.take(0) =~= Seq::<DiffOp>::empty());
+    } else {
+        lemma_c12_changes_expand(ops, n, k - 1);
+        lemma_c12_changes_add(expand(ops, n, k - 1), pieces(ops, n, k - 1));
+        assert(ops.take(k).drop_last() =~= ops.take(k - 1));
+        assert(ops.take(k).last() == ops[k - 1]);
+        let p = pieces(ops, n, k - 1);
+        reveal_with_fuel(changes_of, 3);
+        if is_eq(ops[k - 1]) {
+            if p.len() == 2 {
+                assert(p.drop_last() =~= seq![p[0]]);
+                assert(p.drop_last().drop_last() =~= Seq::<DiffOp>::empty());
+            } else { assert(p.drop_last() =~= Seq::<DiffOp>::empty()); }
+            assert(changes_of(p) =~= Seq::<DiffOp>::empty());
+            assert(changes_of(expand(ops, n, k - 1)) + changes_of(p) =~= changes_of(expand(ops, n, k - 1)));
+        } else {
+            assert(p =~= seq![ops[k - 1]]);
+            assert(p.drop_last() =~= Seq::<DiffOp>::empty());
+            assert(changes_of(p) =~= seq![ops[k - 1]]);
+            assert(changes_of(expand(ops, n, k - 1)) + changes_of(p) =~= changes_of(ops.take(k - 1)).push(ops[k - 1]));
+        }
+    }
+}
+
+/// (d) together the groups contain every change exactly once, unchanged and in order
+pub proof fn lemma_c12_changes(ops: Seq<DiffOp>, n: int, gs: Seq<Seq<DiffOp>>, c: Seq<int>)
+    requires grouped(ops, n, gs, c),
+    ensures changes_of(concat(gs)) == changes_of(ops),
+{
+    lemma_c12_concat(ops, n, gs, c);
+    lemma_c12_changes_expand(ops, n, ops.len() as int);
+    assert(ops.take(ops.len() as int) =~= ops);
+}
+
+/// op i (not a splitting point) lies in group j
+pub open spec fn in_group(ops: Seq<DiffOp>, c: Seq<int>, i: int, j: int) -> bool {
+    0 <= j <= c.len() && cut_at(ops, c, j - 1) < i < cut_at(ops, c, j)
+}
+
+/// every op that is not a splitting point lies in exactly one group, at a fixed place, as `trimmed_op`
+/// (a change: unchanged); two such ops lie in different groups exactly when an interior Equal run
+/// of more than 2n items lies between them
+pub proof fn lemma_c12_separation(ops: Seq<DiffOp>, n: int, gs: Seq<Seq<DiffOp>>, c: Seq<int>, i: int, j: int, i2: int, j2: int)
+    requires grouped(ops, n, gs, c), 0 <= i < i2 < ops.len(), in_group(ops, c, i, j), in_group(ops, c, i2, j2),
+    ensures
+        j <= j2,
+        gs[j][i - cut_at(ops, c, j - 1) - (if j == 0 { 1int } else { 0int })] == trimmed_op(ops, n, i),
+        !is_eq(ops[i]) ==> trimmed_op(ops, n, i) == ops[i],
+        j != j2 <==> exists|s: int| i < s < i2 && is_split(ops, n, s),
+{
+    let lo = cut_at(ops, c, j - 1);
+    assert(gs[j] == group_between(ops, n, lo, cut_at(ops, c, j)));
+    if j > j2 {
+        if j2 < j - 1 { assert(c[j2] < c[j - 1]); }
+    }
+    if j != j2 {
+        assert(i < c[j]);
+        if j < j2 - 1 { assert(c[j] < c[j2 - 1]); }
+        assert(is_split(ops, n, c[j]));
+    }
+    if exists|s: int| i < s < i2 && is_split(ops, n, s) {
+        let s = choose|s: int| i < s < i2 && is_split(ops, n, s);
+        if j == j2 { lemma_c12_no_split_between(ops, n, c, j, s); }
+    }
+}
+
+/// every op that is not a splitting point lies in some group
+pub proof fn lemma_c12_in_some_group(ops: Seq<DiffOp>, n: int, c: Seq<int>, i: int) -> (j: int)
+    requires cuts_upto(ops, n, c, ops.len() as int), 0 <= i < ops.len(), !is_split(ops, n, i),
+    ensures in_group(ops, c, i, j),
+{
+    if c.len() == 0 || i > c.last() { c.len() as int }
+    else {
+        assert forall|a: int| 0 <= a < c.len() implies c[a] != i by { assert(is_split(ops, n, c[a])); }
+        lemma_c12_first_cut_above(c, i, c.len() - 1)
+    }
+}
+
+proof fn lemma_c12_first_cut_above(c: Seq<int>, i: int, t: int) -> (j: int)
+    requires 0 <= t < c.len(), i < c[t], forall|a: int, b: int| 0 <= a < b < c.len() ==> c[a] < c[b], forall|a: int| 0 <= a < c.len() ==> c[a] != i,
+    ensures 0 <= j <= t, i < c[j], j == 0 || c[j - 1] < i,
+    decreases t
+{
+    if t == 0 || c[t - 1] < i { t } else { lemma_c12_first_cut_above(c, i, t - 1) }
+}
 
 } // verus!
